@@ -45,7 +45,9 @@ Inductive event :=
 
 Inductive error :=
 | ErrSizeZero | ErrRegisterTwice | ErrRootFlags | ErrRootWithFinalizer
-| ErrInvalidUnregister | ErrInvalidReregister | ErrPrecond | OutOfFuel.
+| ErrInvalidUnregister | ErrInvalidReregister | ErrCollectorCheck | ErrPrecond | OutOfFuel.
+(* ErrCollectorCheck: a check(...) of the collector itself failed; ErrPrecond: the HISTORY broke the
+   allocator's / mutator's contract (never raised by the modelled collector code) *)
 
 Record gc := mkGC {
   items : list (Z * item);               (* gc.items *)
@@ -311,7 +313,7 @@ Definition resize_item (newsize : Z) (it : item) : item :=
   mkItem (iflags it) newsize (ifin it) (resize_words (nwords newsize) (iwords it)) (idecl it).
 
 Definition reregister (stk : list Z) (oldptr newptr newsize : Z) (g : gc) : gc :=
-  if (oldptr =? 0) || (newptr =? 0) || (newsize <=? 0) then set_err ErrPrecond g else
+  if (oldptr =? 0) || (newptr =? 0) || (newsize <=? 0) then set_err ErrCollectorCheck g else
   if newptr =? oldptr then
     match lookup oldptr (items g) with
     | Some it =>
@@ -442,7 +444,7 @@ Definition apply_op (o : op) (g : gc) : gc :=
     | ORealloc ptr newptr newsize stk =>
         match lookup ptr (items g) with
         | Some it =>
-            if (0 <? newsize) && (newsize <? two64) && negb (newsize =? isize it) &&
+            if (0 <? ptr) && (0 <? newsize) && (newsize <? two64) && negb (newsize =? isize it) &&
                ((newptr =? ptr) || (newptr =? 0) || fresh newptr g)
             then gc_realloc stk ptr newptr newsize g else set_err ErrPrecond g
         | None => set_err ErrPrecond g
